@@ -78,9 +78,16 @@ class Zone(dns.zone.Zone):  # lgtm[py/missing-equals]
         self._write_event: threading.Event | None = None
         self._write_waiters: collections.deque[threading.Event] = collections.deque()
         self._readers: set[Transaction] = set()
-        self._commit_version_unlocked(
-            None, WritableVersion(self, replacement=True), origin
-        )
+        # Make the empty initial version with the zone's own factories (as
+        # transactions do), so that subclasses get a version of the kind their
+        # writers expect to copy from.
+        wfactory = self.writable_version_factory
+        if wfactory is None:
+            wfactory = WritableVersion
+        ifactory = self.immutable_version_factory
+        if ifactory is None:
+            ifactory = ImmutableVersion
+        self._commit_version_unlocked(None, ifactory(wfactory(self, True)), origin)
 
     def reader(
         self, id: int | None = None, serial: int | None = None
